@@ -171,7 +171,15 @@ func checkThresholdBounds(c *Ctx, prop string, setP *ssa.Function) {
 }
 
 // element returns the window element term a weight store goes through.
-func storesToField(fn *ssa.Function, owner, field string) []*ssa.Store {
+func storesToField(root *ssa.Function, owner, field string) []*ssa.Store {
+	var out []*ssa.Store
+	for _, fn := range funcAndHelpers(root) {
+		out = append(out, storesToField1(fn, owner, field)...)
+	}
+	return out
+}
+
+func storesToField1(fn *ssa.Function, owner, field string) []*ssa.Store {
 	var out []*ssa.Store
 	for _, b := range fn.Blocks {
 		for _, in := range b.Instrs {
@@ -280,6 +288,15 @@ func checkVoteDiscipline(c *Ctx, prop string, upd *ssa.Function, full bool) {
 			}
 			if f.IsCmp && f.Op.String() == ">=" && strings.HasSuffix(f.L.String(), ".prevoteWeight") {
 				okQ = true
+			}
+		}
+		// or the entry written is the one a by-address lookup returned for the generator
+		if fa, ok := st.Addr.(*ssa.FieldAddr); ok {
+			bt := ff.Term(fa.X)
+			if bt.Any(func(t *Term) bool {
+				return t.Op == "call" && strings.HasSuffix(t.Sym, "ActiveValidators).get") && strings.Contains(t.String(), "[0].generatorAddress")
+			}) {
+				okOwner = true
 			}
 		}
 		c.Require(prop+".R2 largestHeightPrecommit", FuncKey(upd), p.InstrPos(st), "raised to the first (highest) precommitted height, for the generator's own entry, under the prevote quorum", okVal && okFirst && okOwner && okQ, fmt.Sprintf("value=%s first=%v owner=%v quorum=%v", v, okFirst, okOwner, okQ))
